@@ -1,9 +1,637 @@
 package main
 
-func tryReplay(f *flags, w *propWork, r *oblResult) (confirmed bool, output string, testSrc string) {
-	return false, "", ""
+// Counterexample replay: build the inputs of the real function from the solver's model, run the
+// real function through `go test -overlay` (nothing is written into /repo), dump pre/post state
+// by reflection, and evaluate the violated contract clause on the concrete values.
+
+import (
+	"encoding/json"
+	"fmt"
+	"go/types"
+	"math/big"
+	"os"
+	"os/exec"
+	"path/filepath"
+	"sort"
+	"strings"
+
+	"golang.org/x/tools/go/ssa"
+)
+
+// inputTerms lists the ground terms whose model values describe the inputs of fn.
+func (x *Exec) inputTerms() []string {
+	if x.fn == nil {
+		return nil
+	}
+	var out []string
+	seen := map[string]bool{}
+	add := func(s string) {
+		if !seen[s] {
+			seen[s] = true
+			out = append(out, s)
+		}
+	}
+	var walk func(t types.Type, term string, depth int)
+	walk = func(t types.Type, term string, depth int) {
+		t = types.Unalias(t)
+		switch u := t.Underlying().(type) {
+		case *types.Basic:
+			add(term)
+			if u.Info()&types.IsString != 0 {
+				add("(str_len " + term + ")")
+			}
+		case *types.Pointer:
+			add(term)
+			if depth >= 3 {
+				return
+			}
+			if n, s := namedStruct(u.Elem()); s != nil && n != nil {
+				for i := 0; i < s.NumFields(); i++ {
+					hn := x.fieldHeapName(n, s.Field(i))
+					if h, ok := x.initHeaps[hn]; ok {
+						walk(s.Field(i).Type(), "(select "+h.S+" "+term+")", depth+1)
+					}
+				}
+			} else if h, ok := x.initHeaps[x.cellHeapName(u.Elem())]; ok {
+				walk(u.Elem(), "(select "+h.S+" "+term+")", depth+1)
+			}
+		case *types.Slice:
+			if isByteSlice(t) {
+				add(term)
+				add("(str_len " + term + ")")
+				return
+			}
+			add("(sl_len " + term + ")")
+			if depth >= 3 {
+				return
+			}
+			for i := 0; i < 4; i++ {
+				walk(u.Elem(), fmt.Sprintf("(select (sl_elems %s) %d)", term, i), depth+1)
+			}
+		case *types.Struct:
+			for i := 0; i < u.NumFields(); i++ {
+				walk(u.Field(i).Type(), x.tm.StructField(Term{term, x.tm.SortOf(t)}, t, i).S, depth+1)
+			}
+		case *types.Interface:
+			add("(ifc_tag " + term + ")")
+		case *types.Signature:
+			add(term)
+		}
+	}
+	for _, p := range x.fn.Params {
+		walk(p.Type(), "p_"+sanitize(p.Name()), 0)
+	}
+	for _, in := range x.b.inputs {
+		add(in)
+		if x.b.consts[in] == SIfc {
+			add("(ifc_tag " + in + ")")
+		}
+	}
+	return out
 }
 
-func runReplayTest(repo, pkgPath, src string) (bool, string) {
-	return false, ""
+type genCtx struct {
+	x      *Exec
+	model  map[string]string
+	decls  []string
+	refVar map[string]string // ref value -> variable name
+	n      int
+	imports map[string]string // path -> name
+	ok     bool
+	why    string
+	strVals map[string]string
 }
+
+func (g *genCtx) fail(why string) string {
+	g.ok = false
+	if g.why == "" {
+		g.why = why
+	}
+	return "nil"
+}
+
+func modelInt(v string) (*big.Int, bool) {
+	v = strings.TrimSpace(v)
+	neg := false
+	if strings.HasPrefix(v, "(- ") && strings.HasSuffix(v, ")") {
+		neg = true
+		v = strings.TrimSpace(v[3 : len(v)-1])
+	}
+	n, ok := new(big.Int).SetString(v, 10)
+	if !ok {
+		return nil, false
+	}
+	if neg {
+		n.Neg(n)
+	}
+	return n, true
+}
+
+func (g *genCtx) typeStr(t types.Type) string {
+	return types.TypeString(t, func(p *types.Package) string {
+		if p.Path() == g.x.pkg.Pkg.Path() {
+			return ""
+		}
+		name := p.Name()
+		if old, ok := g.imports[p.Path()]; ok {
+			return old
+		}
+		// avoid clashes
+		for _, n := range g.imports {
+			if n == name {
+				name = name + fmt.Sprint(len(g.imports))
+			}
+		}
+		g.imports[p.Path()] = name
+		return name
+	})
+}
+
+// strOfLen makes a distinct printable string of the given length for an abstract Str value.
+func (g *genCtx) strFor(abs string, n int64) string {
+	if s, ok := g.strVals[abs]; ok {
+		return s
+	}
+	id := len(g.strVals)
+	var s string
+	if n <= 0 {
+		s = ""
+	} else {
+		base := fmt.Sprintf("%c%d", 'a'+rune(id%26), id)
+		for int64(len(s)) < n {
+			s += base
+		}
+		s = s[:n]
+	}
+	g.strVals[abs] = s
+	return s
+}
+
+// expr builds a Go expression of type t whose value matches the model of term.
+func (g *genCtx) expr(t types.Type, term string, depth int) string {
+	t0 := t
+	t = types.Unalias(t)
+	val, has := g.model[term]
+	switch u := t.Underlying().(type) {
+	case *types.Basic:
+		switch {
+		case u.Info()&types.IsBoolean != 0:
+			if !has {
+				return "false"
+			}
+			return val
+		case u.Info()&types.IsInteger != 0:
+			if !has {
+				return g.typeStr(t0) + "(0)"
+			}
+			n, ok := modelInt(val)
+			if !ok {
+				return g.fail("non-numeral model value " + val)
+			}
+			return fmt.Sprintf("%s(%s)", g.typeStr(t0), n.String())
+		case u.Info()&types.IsString != 0:
+			ln := int64(0)
+			if lv, ok := g.model["(str_len "+term+")"]; ok {
+				if n, ok2 := modelInt(lv); ok2 && n.IsInt64() && n.Int64() < 1<<16 {
+					ln = n.Int64()
+				} else {
+					return g.fail("string too long in model")
+				}
+			}
+			if !has {
+				val = term
+			}
+			return fmt.Sprintf("%s(%q)", g.typeStr(t0), g.strFor(val, ln))
+		}
+		return g.fail("basic type " + t.String())
+	case *types.Pointer:
+		if !has {
+			return "nil"
+		}
+		n, ok := modelInt(val)
+		if !ok {
+			return g.fail("pointer model value " + val)
+		}
+		if n.Sign() == 0 {
+			return "nil"
+		}
+		if v, ok := g.refVar[n.String()+"|"+t.String()]; ok {
+			return v
+		}
+		if depth > 3 {
+			return "nil"
+		}
+		g.n++
+		name := fmt.Sprintf("o%d", g.n)
+		g.refVar[n.String()+"|"+t.String()] = name
+		if nm, s := namedStruct(u.Elem()); s != nil && nm != nil {
+			g.decls = append(g.decls, fmt.Sprintf("%s := new(%s)", name, g.typeStr(u.Elem())))
+			for i := 0; i < s.NumFields(); i++ {
+				f := s.Field(i)
+				if f.Name() == "_" {
+					continue
+				}
+				hn := g.x.fieldHeapName(nm, f)
+				h, ok := g.x.initHeaps[hn]
+				if !ok {
+					continue
+				}
+				ft := "(select " + h.S + " " + term + ")"
+				switch f.Type().Underlying().(type) {
+				case *types.Struct, *types.Interface, *types.Map, *types.Chan, *types.Signature:
+					continue
+				}
+				e := g.expr(f.Type(), ft, depth+1)
+				g.decls = append(g.decls, fmt.Sprintf("%s.%s = %s", name, f.Name(), e))
+			}
+			return name
+		}
+		g.decls = append(g.decls, fmt.Sprintf("%s := new(%s)", name, g.typeStr(u.Elem())))
+		if h, ok := g.x.initHeaps[g.x.cellHeapName(u.Elem())]; ok {
+			e := g.expr(u.Elem(), "(select "+h.S+" "+term+")", depth+1)
+			g.decls = append(g.decls, fmt.Sprintf("*%s = %s", name, e))
+		}
+		return name
+	case *types.Slice:
+		if isByteSlice(t) {
+			ln := int64(0)
+			if lv, ok := g.model["(str_len "+term+")"]; ok {
+				if n, ok2 := modelInt(lv); ok2 && n.IsInt64() && n.Int64() < 1<<16 {
+					ln = n.Int64()
+				}
+			}
+			if has && val == "bytes_nil" {
+				return "nil"
+			}
+			if !has {
+				val = term
+			}
+			return fmt.Sprintf("%s(%q)", g.typeStr(t0), g.strFor(val, ln))
+		}
+		lv, ok := g.model["(sl_len "+term+")"]
+		if !ok {
+			return "nil"
+		}
+		n, ok2 := modelInt(lv)
+		if !ok2 || !n.IsInt64() || n.Int64() > 4 {
+			return g.fail("slice longer than the replayed prefix")
+		}
+		var elems []string
+		for i := int64(0); i < n.Int64(); i++ {
+			elems = append(elems, g.expr(u.Elem(), fmt.Sprintf("(select (sl_elems %s) %d)", term, i), depth+1))
+		}
+		return fmt.Sprintf("%s{%s}", g.typeStr(t0), strings.Join(elems, ", "))
+	case *types.Struct:
+		var fs []string
+		for i := 0; i < u.NumFields(); i++ {
+			ft := g.x.tm.StructField(Term{term, g.x.tm.SortOf(t)}, t, i).S
+			fs = append(fs, fmt.Sprintf("%s: %s", u.Field(i).Name(), g.expr(u.Field(i).Type(), ft, depth+1)))
+		}
+		return fmt.Sprintf("%s{%s}", g.typeStr(t0), strings.Join(fs, ", "))
+	case *types.Interface:
+		tag, ok := g.model["(ifc_tag "+term+")"]
+		if !ok || tag == "0" {
+			return "nil"
+		}
+		if types.Identical(t, types.Universe.Lookup("error").Type()) {
+			g.imports["errors"] = "errors"
+			return `errors.New("replay error")`
+		}
+		return g.fail("non-nil interface input")
+	case *types.Signature:
+		return g.fail("function-typed input")
+	case *types.Map:
+		return g.fail("map-typed input")
+	}
+	return g.fail("input type " + t.String())
+}
+
+const dumperSrc = `
+func govcDump(v interface{}) interface{} { return govcDumpV(reflect.ValueOf(v), 0, map[uintptr]bool{}) }
+
+func govcDumpV(v reflect.Value, depth int, seen map[uintptr]bool) interface{} {
+	if !v.IsValid() {
+		return nil
+	}
+	if depth > 5 {
+		return "<deep>"
+	}
+	switch v.Kind() {
+	case reflect.Bool:
+		return v.Bool()
+	case reflect.Int, reflect.Int8, reflect.Int16, reflect.Int32, reflect.Int64:
+		return fmt.Sprint(v.Int())
+	case reflect.Uint, reflect.Uint8, reflect.Uint16, reflect.Uint32, reflect.Uint64, reflect.Uintptr:
+		return fmt.Sprint(v.Uint())
+	case reflect.Float32, reflect.Float64:
+		return map[string]interface{}{"$float": fmt.Sprint(v.Float())}
+	case reflect.String:
+		return map[string]interface{}{"$str": v.String()}
+	case reflect.Ptr:
+		if v.IsNil() {
+			return nil
+		}
+		p := v.Pointer()
+		if seen[p] {
+			return map[string]interface{}{"$ptr": fmt.Sprint(p), "$cycle": true}
+		}
+		seen[p] = true
+		defer delete(seen, p)
+		inner := govcDumpV(v.Elem(), depth+1, seen)
+		if m, ok := inner.(map[string]interface{}); ok {
+			m["$ptr"] = fmt.Sprint(p)
+			return m
+		}
+		return map[string]interface{}{"$ptr": fmt.Sprint(p), "$val": inner}
+	case reflect.Struct:
+		m := map[string]interface{}{}
+		for i := 0; i < v.NumField(); i++ {
+			m[v.Type().Field(i).Name] = govcDumpV(v.Field(i), depth+1, seen)
+		}
+		return m
+	case reflect.Slice:
+		if v.Type().Elem().Kind() == reflect.Uint8 {
+			if v.IsNil() {
+				return map[string]interface{}{"$bytes": "", "$nil": true}
+			}
+			b := make([]byte, v.Len())
+			for i := range b {
+				b[i] = byte(v.Index(i).Uint())
+			}
+			return map[string]interface{}{"$bytes": string(b)}
+		}
+		out := []interface{}{}
+		for i := 0; i < v.Len() && i < 64; i++ {
+			out = append(out, govcDumpV(v.Index(i), depth+1, seen))
+		}
+		return map[string]interface{}{"$slice": out, "$len": v.Len()}
+	case reflect.Array:
+		out := []interface{}{}
+		for i := 0; i < v.Len() && i < 64; i++ {
+			out = append(out, govcDumpV(v.Index(i), depth+1, seen))
+		}
+		return map[string]interface{}{"$slice": out, "$len": v.Len()}
+	case reflect.Map:
+		if v.IsNil() {
+			return map[string]interface{}{"$map": map[string]interface{}{}, "$nil": true}
+		}
+		m := map[string]interface{}{}
+		it := v.MapRange()
+		n := 0
+		for it.Next() && n < 256 {
+			m[fmt.Sprint(it.Key())] = govcDumpV(it.Value(), depth+1, seen)
+			n++
+		}
+		return map[string]interface{}{"$map": m, "$len": v.Len()}
+	case reflect.Interface:
+		if v.IsNil() {
+			return nil
+		}
+		return map[string]interface{}{"$iface": v.Elem().Type().String(), "$val": govcDumpV(v.Elem(), depth+1, seen)}
+	case reflect.Func:
+		if v.IsNil() {
+			return nil
+		}
+		return "<func>"
+	}
+	return "<" + v.Kind().String() + ">"
+}
+
+func govcEmit(tag string, v interface{}) {
+	b, err := json.Marshal(v)
+	if err != nil {
+		fmt.Printf("GOVC-%s-ERR %v\n", tag, err)
+		return
+	}
+	fmt.Printf("GOVC-%s %s\n", tag, b)
+}
+`
+
+// buildReplayTest returns the source of an in-package test that runs fn on the model's inputs.
+func (x *Exec) buildReplayTest(model map[string]string) (src string, ok bool, why string) {
+	fn := x.fn
+	g := &genCtx{x: x, model: model, refVar: map[string]string{}, imports: map[string]string{}, ok: true, strVals: map[string]string{}}
+	var args []string
+	var names []string
+	start := 0
+	recv := ""
+	if fn.Signature.Recv() != nil {
+		start = 1
+		recv = g.expr(fn.Params[0].Type(), "p_"+sanitize(fn.Params[0].Name()), 0)
+		names = append(names, fn.Params[0].Name())
+	}
+	cbN := 0
+	for _, p := range fn.Params[start:] {
+		if sig, isFn := p.Type().Underlying().(*types.Signature); isFn {
+			// callback: returns the model's values for its results (cb_* inputs, in call order)
+			var rets []string
+			for k := 0; k < sig.Results().Len(); k++ {
+				rt := sig.Results().At(k).Type()
+				term := sanitize(fmt.Sprintf("cb_%s_%d", p.Name(), k))
+				cbN++
+				rets = append(rets, g.expr(rt, term, 1))
+			}
+			args = append(args, fmt.Sprintf("func(%s) %s { return %s }", g.sigParams(sig), g.sigResults(sig), strings.Join(rets, ", ")))
+			names = append(names, p.Name())
+			continue
+		}
+		args = append(args, g.expr(p.Type(), "p_"+sanitize(p.Name()), 0))
+		names = append(names, p.Name())
+	}
+	if !g.ok {
+		return "", false, g.why
+	}
+	var sb strings.Builder
+	fmt.Fprintf(&sb, "package %s\n\nimport (\n\t\"encoding/json\"\n\t\"fmt\"\n\t\"reflect\"\n\t\"testing\"\n", x.pkg.Pkg.Name())
+	var imps []string
+	for p := range g.imports {
+		imps = append(imps, p)
+	}
+	sort.Strings(imps)
+	for _, p := range imps {
+		fmt.Fprintf(&sb, "\t%s %q\n", g.imports[p], p)
+	}
+	sb.WriteString(")\n\nvar _ = reflect.ValueOf\nvar _ = json.Marshal\n")
+	sb.WriteString(dumperSrc)
+	sb.WriteString("\nfunc TestGovcReplay(t *testing.T) {\n")
+	for _, d := range g.decls {
+		sb.WriteString("\t" + d + "\n")
+	}
+	// argument variables
+	var argVars []string
+	k := 0
+	if recv != "" {
+		fmt.Fprintf(&sb, "\ta0 := %s\n", recv)
+		argVars = append(argVars, "a0")
+		k = 1
+	}
+	for i, a := range args {
+		fmt.Fprintf(&sb, "\ta%d := %s\n", i+k, a)
+		argVars = append(argVars, fmt.Sprintf("a%d", i+k))
+	}
+	sb.WriteString("\tpre := map[string]interface{}{}\n")
+	for i, n := range names {
+		if _, isFn := fn.Params[i].Type().Underlying().(*types.Signature); isFn {
+			continue
+		}
+		fmt.Fprintf(&sb, "\tpre[%q] = govcDump(%s)\n", n, argVars[i])
+	}
+	sb.WriteString("\tgovcEmit(\"PRE\", pre)\n")
+	sb.WriteString("\tdefer func() {\n\t\tif r := recover(); r != nil {\n\t\t\tfmt.Printf(\"GOVC-PANIC %v\\n\", r)\n\t\t}\n\t}()\n")
+	nres := fn.Signature.Results().Len()
+	var resVars []string
+	for i := 0; i < nres; i++ {
+		resVars = append(resVars, fmt.Sprintf("r%d", i))
+	}
+	call := ""
+	if recv != "" {
+		call = fmt.Sprintf("a0.%s(%s)", fn.Name(), strings.Join(argVars[1:], ", "))
+	} else {
+		call = fmt.Sprintf("%s(%s)", fn.Name(), strings.Join(argVars, ", "))
+	}
+	if nres > 0 {
+		fmt.Fprintf(&sb, "\t%s := %s\n", strings.Join(resVars, ", "), call)
+	} else {
+		fmt.Fprintf(&sb, "\t%s\n", call)
+	}
+	sb.WriteString("\tpost := map[string]interface{}{}\n")
+	for i, n := range names {
+		if _, isFn := fn.Params[i].Type().Underlying().(*types.Signature); isFn {
+			continue
+		}
+		fmt.Fprintf(&sb, "\tpost[%q] = govcDump(%s)\n", n, argVars[i])
+	}
+	for i, r := range resVars {
+		fmt.Fprintf(&sb, "\tpost[\"result%d\"] = govcDump(%s)\n", i, r)
+	}
+	sb.WriteString("\tgovcEmit(\"POST\", post)\n}\n")
+	return sb.String(), true, ""
+}
+
+func (g *genCtx) sigParams(sig *types.Signature) string {
+	var ps []string
+	for i := 0; i < sig.Params().Len(); i++ {
+		ps = append(ps, fmt.Sprintf("_ %s", g.typeStr(sig.Params().At(i).Type())))
+	}
+	return strings.Join(ps, ", ")
+}
+
+func (g *genCtx) sigResults(sig *types.Signature) string {
+	var rs []string
+	for i := 0; i < sig.Results().Len(); i++ {
+		rs = append(rs, g.typeStr(sig.Results().At(i).Type()))
+	}
+	if len(rs) == 0 {
+		return ""
+	}
+	return "(" + strings.Join(rs, ", ") + ")"
+}
+
+// runReplayTest injects src as an in-package test through -overlay and runs it.
+func runReplayTest(repo, pkgPath, src string) (bool, string) {
+	rel := strings.TrimPrefix(pkgPath, modulePath)
+	rel = strings.TrimPrefix(rel, "/")
+	dir, err := os.MkdirTemp("", "govc-replay-")
+	if err != nil {
+		return false, err.Error()
+	}
+	defer os.RemoveAll(dir)
+	testFile := filepath.Join(dir, "zz_govc_replay_test.go")
+	if err := os.WriteFile(testFile, []byte(src), 0o644); err != nil {
+		return false, err.Error()
+	}
+	target := filepath.Join(repo, rel, "zz_govc_replay_test.go")
+	ov, _ := json.Marshal(map[string]interface{}{"Replace": map[string]string{target: testFile}})
+	ovFile := filepath.Join(dir, "overlay.json")
+	_ = os.WriteFile(ovFile, ov, 0o644)
+	cmd := exec.Command("go", "test", "-overlay", ovFile, "-vet=off", "-timeout", "60s", "-count=1", "-v", "-run", "^TestGovcReplay$", "./"+rel)
+	cmd.Dir = repo
+	cmd.Env = goEnv()
+	out, _ := cmd.CombinedOutput()
+	return strings.Contains(string(out), "GOVC-PRE"), string(out)
+}
+
+func tryReplay(f *flags, w *propWork, r *oblResult) (confirmed bool, output string, testSrc string) {
+	x := r.x
+	if x == nil || r.model == nil {
+		return false, "no model", ""
+	}
+	if x.fn == nil {
+		// lemma: evaluate the formula on the model directly is not possible without running code
+		return false, "lemma: pure formula, no code to run (model attached)", ""
+	}
+	src, ok, why := x.buildReplayTest(r.model)
+	if !ok {
+		return false, "inputs not constructible from the model: " + why, ""
+	}
+	ran, out := runReplayTest(f.repo, x.pkg.Pkg.Path(), src)
+	if !ran {
+		return false, "replay test did not run:\n" + out, src
+	}
+	verdict, detail := x.judgeReplay(r, out)
+	return verdict, detail + "\n" + out, src
+}
+
+// judgeReplay evaluates the violated obligation on the dumped concrete state.
+func (x *Exec) judgeReplay(r *oblResult, out string) (bool, string) {
+	var pre, post map[string]interface{}
+	panicMsg := ""
+	for _, l := range strings.Split(out, "\n") {
+		switch {
+		case strings.HasPrefix(l, "GOVC-PRE "):
+			_ = json.Unmarshal([]byte(l[9:]), &pre)
+		case strings.HasPrefix(l, "GOVC-POST "):
+			_ = json.Unmarshal([]byte(l[10:]), &post)
+		case strings.HasPrefix(l, "GOVC-PANIC "):
+			panicMsg = l[11:]
+		}
+	}
+	ob := r.q.Ob
+	switch ob.Kind {
+	case "nil", "bounds", "div0", "typeassert", "mapnilwrite", "panic", "nowrap":
+		if panicMsg != "" {
+			return true, "real function panicked on the model's input: " + panicMsg
+		}
+	}
+	if panicMsg != "" {
+		// a panic on an input satisfying the preconditions violates the contract of any function
+		// without panics_if
+		if len(x.con.PanicsIf) == 0 && x.preHolds(pre) {
+			return true, "real function panicked on an input satisfying its preconditions: " + panicMsg
+		}
+		return false, "function panicked: " + panicMsg
+	}
+	if post == nil {
+		return false, "no post-state dump"
+	}
+	if !x.preHolds(pre) {
+		return false, "model input does not satisfy the preconditions when evaluated concretely (spurious model)"
+	}
+	// evaluate every postcondition of the function on the concrete run: any false one is a confirmed
+	// failing input (for post obligations this includes the violated clause itself)
+	for _, c := range x.con.Ensures {
+		v, err := x.evalClause(c.Expr, pre, post)
+		if err != nil {
+			continue
+		}
+		if !v {
+			return true, fmt.Sprintf("postcondition evaluates to false on the real run: %s", c.Src)
+		}
+	}
+	return false, "all evaluable postconditions hold on the real run for this input"
+}
+
+func (x *Exec) preHolds(pre map[string]interface{}) bool {
+	if pre == nil {
+		return false
+	}
+	for _, c := range x.con.Requires {
+		v, err := x.evalClause(c.Expr, pre, pre)
+		if err == nil && !v {
+			return false
+		}
+	}
+	return true
+}
+
+var _ = ssa.NaiveForm
